@@ -35,10 +35,8 @@ def dist_fix_point_cd(w, grad_ws, lipschitz_ws, datafit, penalty, ws):
     dist = np.zeros(ws.shape[0], dtype=w.dtype)
 
     for idx, j in enumerate(ws):
-        if lipschitz_ws[idx] == 0.:
-            continue
-
-        step_j = 1 / lipschitz_ws[idx]
+        # X[:, j] == 0 has a zero Lipschitz constant: same step as in the CD epochs
+        step_j = 1 / lipschitz_ws[idx] if lipschitz_ws[idx] != 0. else 1000.
         dist[idx] = np.abs(
             w[j] - penalty.prox_1d(w[j] - step_j * grad_ws[idx], step_j, j)
         )
@@ -84,14 +82,14 @@ def dist_fix_point_bcd(
 
     grad_ptr = 0
     for idx, g in enumerate(ws):
-        if lipschitz_ws[idx] == 0.:
-            continue
         grp_g_indices = penalty.grp_indices[penalty.grp_ptr[g]: penalty.grp_ptr[g+1]]
 
         grad_g = grad_ws[grad_ptr: grad_ptr + len(grp_g_indices)]
         grad_ptr += len(grp_g_indices)
 
-        step_g = 1 / lipschitz_ws[idx]
+        # X[:, grp_g_indices] == 0 has a zero Lipschitz constant: same step as in
+        # the BCD epochs
+        step_g = 1 / lipschitz_ws[idx] if lipschitz_ws[idx] != 0. else 1000.
         w_g = w[grp_g_indices]
         dist[idx] = norm(
             w_g - penalty.prox_1group(w_g - grad_g * step_g, step_g, g)
